@@ -159,6 +159,7 @@ Inductive instr :=
 | ICallRel (target : Z)
 | ICallInd (src : operand)
 | IRet (imm : Z)
+| IRet0                                       (* C3: no immediate operand (the lifted IL differs from `ret 0`) *)
 | ILeave
 | IJmpRel (target : Z)
 | IJmpInd (src : operand)
@@ -372,6 +373,7 @@ Definition step (m : mode) (next : Z) (i : instr) (s : xstate) : outcome :=
   | IRet imm =>
       of_opt (obind (pop m w s) (fun '(t, s1) =>
               Some (set_gpr s1 (reg_write w SP (U w (reg_read w SP (x_gpr s1) + imm)) (x_gpr s1)), t)))
+  | IRet0 => of_opt (option_map (fun '(t, s1) => (s1, t)) (pop m w s))
   | ILeave =>
       let s0 := set_gpr s (reg_write w SP (reg_read w BP g) g) in
       ret (obind (pop m w s0) (fun '(v, s1) => Some (set_gpr s1 (reg_write w BP v (x_gpr s1)))))
